@@ -16,13 +16,14 @@ KINDS = {
     "C08": lambda k: k.startswith(("get_unchecked-in-bounds", "raw-", "ptr-offset-in-bounds", "from_raw_parts", "inline-asm",
                                    "unmodelled-call", "fixpoint-not-reached", "precondition of", "vector-invariant")),
     "C13": lambda k: k.startswith(("raw-", "ptr-offset-in-bounds", "from_raw_parts", "vector-invariant", "unmodelled-call",
-                                   "fixpoint-not-reached", "precondition of", "get_unchecked")),
+                                   "fixpoint-not-reached", "precondition of", "get_unchecked", "post:")),
     # no value-changing narrowing cast / wrapping arithmetic in exponent bookkeeping
     "C07": lambda k: k.startswith(("cast-value-preserving", "assert:overflow", "arith-no-wrap", "unmodelled-call", "fixpoint-not-reached")),
     "C06": lambda k: k.startswith(("post:", "unmodelled-call", "fixpoint-not-reached")),
     "C12": lambda k: k.startswith(("assert:overflow", "arith-no-wrap", "cast-value-preserving", "vector-invariant", "raw-", "ptr-offset", "precondition of")),
     "C18": lambda k: k.startswith(("assert:", "panic", "post:")),
     "C11": lambda k: k.startswith(("post:", "assert:", "panic", "carry-test")),
+    "C14": lambda k: k.startswith(("pow-no-overflow",)),
     "C17": lambda k: k.startswith(("post:bits", "unmodelled-call", "fixpoint-not-reached")),
     "C19": lambda k: k.startswith(("assert:", "panic", "index-in-bounds", "range-index-in-bounds", "unmodelled-call", "fixpoint-not-reached", "post:")),
 }
